@@ -386,6 +386,7 @@ type world struct {
 	pend         []*pending
 	lastLeader   int
 	amnesia      bool // see joinOp
+	hungCalls    int  // bounded calls that did not come back
 	wedgedSeen   bool // see wedged()
 }
 
@@ -908,6 +909,13 @@ func execC17(plan *simkit.Plan, run *simkit.Run) {
 	synctest.Wait()
 
 	for _, raw := range plan.Steps {
+		if w.hungCalls > 0 && w.raftBroken() {
+			// Raft is beyond help (snapshot-install loop or an amnesiac voter) and
+			// calls have stopped coming back: every further step would spin through
+			// its whole bound with nothing left to judge. The plan ends here.
+			run.Probe("plan_ended_raft_broken_and_calls_hang")
+			panic(simkit.EndPlan{Why: "Raft is broken and calls hang"})
+		}
 		var s Step
 		if err := json.Unmarshal(raw, &s); err != nil {
 			panic(err)
@@ -919,6 +927,10 @@ func execC17(plan *simkit.Plan, run *simkit.Run) {
 		}
 	}
 	w.drain()
+	if w.hungCalls > 0 && w.raftBroken() {
+		run.Probe("plan_ended_raft_broken_and_calls_hang")
+		panic(simkit.EndPlan{Why: "Raft is broken and calls hang"})
+	}
 	w.finale()
 }
 
@@ -1011,6 +1023,9 @@ func (w *world) step(s Step) {
 			return
 		}
 		err, ret := call(60*time.Second, fn)
+		if !ret {
+			w.hungCalls++
+		}
 		apply(err, ret)
 	case "join", "peer_add":
 		w.joinOp(s)
@@ -1165,6 +1180,9 @@ func (w *world) joinOp(s Step) {
 		err, ret = call(90*time.Second, func() error { _, e := at.cl.PeerAdd(context.Background(), w.id(s.Slot)); return e })
 	}
 	run.Ev(at.who, s.Op, "slot=%d err=%v returned=%v members=%s", s.Slot, err, ret, w.memberList())
+	if !ret {
+		w.hungCalls++
+	}
 	switch {
 	case ret && err == nil:
 		w.member[s.Slot] = yes
@@ -1328,6 +1346,9 @@ func (w *world) removeOp(s Step) {
 	leaderBefore := w.agreedLeader()
 	err, ret := call(90*time.Second, func() error { return at.cl.PeerRemove(context.Background(), w.id(s.Slot)) })
 	run.Ev(at.who, "peer_rm", "slot=%d err=%v returned=%v members=%s", s.Slot, err, ret, w.memberList())
+	if !ret {
+		w.hungCalls++
+	}
 	switch {
 	case ret && err == nil:
 		run.Probe("removals_succeeded")
